@@ -13,6 +13,7 @@
    close()/abort() and force-close on an exception from data_received).  This is the absorbing state [FDead]/[PDead];
    the buffer the code would still hold there is never read again. *)
 From Coq Require Import NArith List Bool.
+From AV Require Import Gen.RawSocketConsts.
 Import ListNotations.
 Open Scope N_scope.
 
@@ -243,8 +244,16 @@ Record cfg := {
 Definition own_ser (c : cfg) : N := hd 0 (c_sers c).
 Definition tx_rexp (c : cfg) : N := N.log2_up (c_max c).          (* int(math.ceil(math.log(max_message_size, 2))) *)
 Definition aio_lexp : N := 15.                                     (* RawSocketProtocol.__init__: self._length_exp = 15 *)
+(* the receive limit in force once frames flow.  Twisted: the expression assigned to self.MAX_LENGTH by each role
+   (server: in the handshake block of dataReceived; client: in connectionMade), TRANSLATED FROM THE SOURCE on every run
+   (Gen/RawSocketConsts.v) - that it equals 2^(9 + announced nibble) is a theorem (C13_rs_announced_is_enforced), not a
+   modelling decision.  asyncio: self.max_length (2^24 from RawSocketProtocol.__init__ unless overridden). *)
 Definition recv_max (c : cfg) : N :=
-  match c_impl c with Tx => 2 ^ tx_rexp c | Aio => c_max c end.   (* self.MAX_LENGTH = 2**exp  /  self.max_length *)
+  match c_impl c, c_role c with
+  | Tx, Server => gen_tx_server_recv_limit (c_max c)
+  | Tx, Client => gen_tx_client_recv_limit (c_max c)
+  | Aio, _ => c_max c
+  end.
 
 Definition hs_decide (c : cfg) (o1 o2 o3 o4 : N) : hs_out :=
   match c_impl c, c_role c with
